@@ -52,6 +52,7 @@ type Frame struct {
 	props    []string
 	callOrd  map[string]int
 	anchorOrd map[string]int
+	anchorPre map[string]bool
 	done     map[int]bool
 	curBlock *ssa.BasicBlock
 	curIdx   int
@@ -67,7 +68,7 @@ type rangeVis struct {
 
 func (g *Gen) newFrame(fn *ssa.Function, fc *FuncContract, depth int, prefix string) *Frame {
 	return &Frame{g: g, fn: fn, vals: map[ssa.Value]Val{}, fc: fc, depth: depth, prefix: prefix, reachEnd: map[int]string{}, stEnd: map[int]*State{},
-		edge: map[[2]int]string{}, loops: map[int]*loopInfo{}, callOrd: map[string]int{}, anchorOrd: map[string]int{}, done: map[int]bool{}, letVals: map[string]Val{}}
+		edge: map[[2]int]string{}, loops: map[int]*loopInfo{}, callOrd: map[string]int{}, anchorOrd: map[string]int{}, anchorPre: map[string]bool{}, done: map[int]bool{}, letVals: map[string]Val{}}
 }
 
 func (fr *Frame) oname(kind, detail string) string {
